@@ -468,7 +468,22 @@ func (b *BaseStore) Drop() error {
 	return nil
 }
 
+// storeContext returns a context that ends with ctx or when the store is closed: a load
+// that waits for a block (one that no peer provides, for instance) must not outlive its store
+func (b *BaseStore) storeContext(ctx context.Context) (context.Context, context.CancelFunc) {
+	ctx, cancel := context.WithCancel(ctx)
+	stop := context.AfterFunc(b.ctx, cancel)
+
+	return ctx, func() {
+		stop()
+		cancel()
+	}
+}
+
 func (b *BaseStore) Load(ctx context.Context, amount int) error {
+	ctx, cancel := b.storeContext(ctx)
+	defer cancel()
+
 	ctx, span := b.tracer.Start(ctx, "store-load")
 	defer span.End()
 
@@ -538,16 +553,12 @@ func (b *BaseStore) Load(ctx context.Context, amount int) error {
 	progress := make(chan ifacelog.IPFSLogEntry)
 	defer close(progress)
 	go func() {
-		for {
-			var entry ifacelog.IPFSLogEntry
-			select {
-			case <-ctx.Done():
+		// keep receiving until the channel is closed (when Load returns): the fetcher
+		// reports every fetched entry with a blocking send, also once ctx is done
+		for entry := range progress {
+			if entry == nil {
+				// should not happen
 				return
-			case entry = <-progress:
-				if entry == nil {
-					// should not happen
-					return
-				}
 			}
 
 			b.recalculateReplicationStatus(entry.GetClock().GetTime())
@@ -782,6 +793,9 @@ type storeSnapshot struct {
 func (b *BaseStore) LoadFromSnapshot(ctx context.Context) error {
 	b.muJoining.Lock()
 	defer b.muJoining.Unlock()
+
+	ctx, cancel := b.storeContext(ctx)
+	defer cancel()
 
 	ctx, span := b.tracer.Start(ctx, "load-from-snapshot")
 	defer span.End()
